@@ -287,7 +287,8 @@ lineage_splitter_init('default-perfect', {'default': 'perfect'})
 lineage_splitter_init('volume-duplicate', {'volume': 'duplicate', 'B': 'perfect'})
 
 
-def general_partitioning(variant, options):
+def general_partitioning(variant, options, previous=None):
+    """previous: options the SAME splitter object was configured with before (the tables must be those of the last configuration alone)"""
     c = Contract('simulator', 'GeneralVolumeSplitter.py_set_partitioning', PROPS, variant=variant)
     c.concrete_self = lambda ex, cls: ex.instantiate(cls, [], {})
 
@@ -297,6 +298,9 @@ def general_partitioning(variant, options):
             species=list(SPECIES4), reactions=[(['A'], ['B'], 'massaction', {'k': 1.0})], initial_condition_dict={s: 1 for s in SPECIES4}))
         fr.env['m'] = M
         fr.env['options'] = {k: list(v) for k, v in options.items()}
+        if previous is not None:
+            me = fr.env['self']
+            ex.call_method(me, ex.program.find_method(me.cls, 'py_set_partitioning'), [{k: list(v) for k, v in previous.items()}, M], {})
     for nm in ('m', 'options'):
         c.hints[nm] = dict(value=None)
     c.setup(setup)
@@ -324,3 +328,8 @@ general_partitioning('all-binomial', {})
 general_partitioning('perfect-and-duplicate', {'perfect': ['A', 'D'], 'duplicate': ['B']})
 general_partitioning('unknown-names-ignored', {'perfect': ['Cc', 'nosuch'], 'duplicate': ['alsonot']})
 general_partitioning('set-twice', {'duplicate': ['A', 'B', 'Cc', 'D']})
+# a splitter configured AGAIN: nothing of the earlier configuration survives (seed C19-d kept the perfect list when the new options have no 'perfect' key)
+general_partitioning('reconfigured:perfect-then-duplicate-only', {'duplicate': ['A']}, previous={'perfect': ['A', 'B'], 'duplicate': ['D']})
+general_partitioning('reconfigured:perfect-and-duplicate-then-empty', {}, previous={'perfect': ['A'], 'duplicate': ['B', 'Cc']})
+general_partitioning('reconfigured:duplicate-then-perfect-only', {'perfect': ['B']}, previous={'duplicate': ['A', 'B']})
+general_partitioning('reconfigured:same-options-twice', {'perfect': ['A', 'D'], 'duplicate': ['B']}, previous={'perfect': ['A', 'D'], 'duplicate': ['B']})
